@@ -17,7 +17,11 @@ IName(k) == "i" \o Digit(k \div 10) \o Digit(k % 10)
 NameOrderDef == <<"dx_dt", "dy_dt">> \o [k \in 1..60 |-> IName(k)] \o <<"p", "x", "y">>
 N(tok) == NumOf(tok)
 X == Var("x")  Y == Var("y")  P == Var("p")
-Shapes == {"chain-linear", "chain-square", "diamond", "conditional", "two-chains"}
+Shapes == {"chain-linear", "chain-square", "diamond", "conditional", "two-chains",
+           \* intermediates that are bare names or numbers (aliases), alone and between computing steps
+           "alias-param", "alias-number", "alias-state", "alias-composite", "alias-interleaved",
+           \* many intermediates feeding one rate; a chain written last-first; a chain through time
+           "fan-in", "reverse", "time"}
 
 \* the assignments of a shape of depth d: sequence of [name, e]
 I(k) == Var(IName(k))
@@ -48,15 +52,47 @@ Lines(shape, d) ==
          \o [j \in 1..(d \div 2) |-> [name |-> IName(31 + j), e |-> Bn("sub", I(30 + j), N("1"))]]
          \o <<[name |-> "dx_dt", e |-> Bn("mul", I(d), I(30 + d \div 2 + 1))], [name |-> "dy_dt", e |-> Bn("sub", I(31), I(d))]>>
 
+RECURSIVE SumI(_)
+SumI(k) == IF k = 1 THEN I(1) ELSE Bn("add", SumI(k - 1), I(k))
+RECURSIVE Rev(_)
+Rev(sq) == IF sq = <<>> THEN <<>> ELSE Append(Rev(Tail(sq)), Head(sq))
+Aliases(d) == [j \in 1..(d - 1) |-> [name |-> IName(j + 1), e |-> I(j)]]
+Lines2(shape, d) ==
+  CASE shape = "alias-param" ->
+         <<[name |-> IName(1), e |-> P]>> \o Aliases(d)
+         \o <<[name |-> "dx_dt", e |-> Bn("mul", I(d), X)], [name |-> "dy_dt", e |-> Bn("add", I(d), Y)]>>
+    [] shape = "alias-number" ->
+         <<[name |-> IName(1), e |-> N("3")]>> \o Aliases(d)
+         \o <<[name |-> "dx_dt", e |-> Bn("mul", I(d), X)], [name |-> "dy_dt", e |-> Bn("sub", Y, I(d))]>>
+    [] shape = "alias-state" ->
+         <<[name |-> IName(1), e |-> X]>> \o Aliases(d)
+         \o <<[name |-> "dx_dt", e |-> Neg(I(d))], [name |-> "dy_dt", e |-> Bn("mul", I(d), Y)]>>
+    [] shape = "alias-composite" ->
+         <<[name |-> IName(1), e |-> Bn("mul", Bn("mul", P, X), Y)]>> \o Aliases(d)
+         \o <<[name |-> "dx_dt", e |-> Bn("sub", I(d), X)], [name |-> "dy_dt", e |-> Bn("mul", I(d), I(1))]>>
+    [] shape = "alias-interleaved" ->
+         <<[name |-> IName(1), e |-> P]>>
+         \o [j \in 1..(d - 1) |-> LET k == j + 1 IN
+                [name |-> IName(k), e |-> IF k % 2 = 0 THEN I(k - 1) ELSE IF k % 4 = 1 THEN Bn("add", I(k - 1), X) ELSE Bn("mul", I(k - 1), Y)]]
+         \o <<[name |-> "dx_dt", e |-> Bn("sub", I(d), X)], [name |-> "dy_dt", e |-> Bn("add", I(d), I(1))]>>
+    [] shape = "fan-in" ->
+         [k \in 1..d |-> [name |-> IName(k), e |-> IF k % 3 = 0 THEN Bn("add", X, Y) ELSE IF k % 3 = 1 THEN Bn("mul", Y, P) ELSE X]]
+         \o <<[name |-> "dx_dt", e |-> SumI(d)], [name |-> "dy_dt", e |-> Bn("mul", I(1), I(d))]>>
+    [] shape = "reverse" -> Rev(Lines("chain-linear", d))
+    [] shape = "time" ->
+         <<[name |-> IName(1), e |-> Bn("add", Var("t"), X)]>> \o [j \in 1..(d - 1) |-> [name |-> IName(j + 1), e |-> ChainStep(j + 1)]]
+         \o <<[name |-> "dx_dt", e |-> Bn("mul", I(d), Var("t"))], [name |-> "dy_dt", e |-> Bn("sub", I(d), Y)]>>
+AllLines(shape, d) == IF shape \in {"chain-linear", "chain-square", "diamond", "conditional", "two-chains"} THEN Lines(shape, d) ELSE Lines2(shape, d)
+
 ModelOf(shape, d) == [blocks |-> << [k |-> "states", comp |-> "", entries |-> <<[name |-> "x", e |-> N("1")], [name |-> "y", e |-> N("2")]>>],
                                      [k |-> "parameters", comp |-> "", entries |-> <<[name |-> "p", e |-> N("3")]>>],
-                                     [k |-> "expressions", comp |-> "", entries |-> Lines(shape, d)] >>]
+                                     [k |-> "expressions", comp |-> "", entries |-> AllLines(shape, d)] >>]
 
 VARIABLES pc, shape, d, mi
 vars == <<pc, shape, d, mi>>
 None == [none |-> TRUE]
 Init == pc = "pick" /\ shape = "" /\ d = 0 /\ mi = None
-Cap(sh) == CASE sh = "two-chains" -> 29 [] sh = "diamond" -> 12 [] sh = "conditional" -> 11 [] OTHER -> 60      \* the diamond's expansion grows like Fibonacci
+Cap(sh) == CASE sh = "two-chains" -> 29 [] sh = "diamond" -> 12 [] sh = "conditional" -> 11 [] sh = "fan-in" -> 30 [] OTHER -> 60      \* the diamond's expansion grows like Fibonacci
 Pick == /\ pc = "pick" /\ shape' \in Shapes /\ d' \in 1..(IF MaxD > Cap(shape') THEN Cap(shape') ELSE MaxD)
         /\ mi' = Info(ModelOf(shape', d')) /\ pc' = "done"
 Spec == Init /\ [][Pick]_vars
